@@ -629,9 +629,11 @@ def execute(body, prefix=(), policy='low', max_points=4000, trace_labels=False, 
         CUR = None
 
 
-def explore(body_factory, bound, policies=('low',), cap=None, on_exec=None, max_points=4000, before=None):
+def explore(body_factory, bound, policies=('low',), cap=None, on_exec=None, max_points=4000, before=None, part=None):
     """All schedules with <= `bound` deviations from each default policy.
     `body_factory()` must return a fresh body (fresh objects) for every execution.
+    `part=(k, n)` explores only every n-th first-level deviation (k-th residue) plus the root execution, so that one
+    configuration's schedule tree can be spread over n workers; the union over k is the whole tree.
     Returns dict(executions, points, transitions, max_depth, capped, completed_bound)."""
     stats = dict(executions=0, points=0, transitions=0, max_depth=0, capped=False, max_enabled=0)
     for policy in policies:
@@ -651,8 +653,11 @@ def explore(body_factory, bound, policies=('low',), cap=None, on_exec=None, max_
             used = sum(1 for c in prefix if c)
             if used >= bound: continue
             # children: one more deviation at any later point (choices after the prefix are all defaults)
+            nth = 0
             for i in range(len(ex.points) - 1, len(prefix) - 1, -1):
                 base = tuple(ex.choices[:i])
                 for alt in range(ex.points[i].n - 1, 0, -1):
+                    nth += 1
+                    if part is not None and not prefix and nth % part[1] != part[0]: continue
                     stack.append(base + (alt,))
     return stats
